@@ -254,8 +254,146 @@ def check_crop_data(ctx: Ctx):
     ctx.decide("R10.1", f, f.node, construct + ":idempotent", "cropping an already cropped pair changes nothing", out2.kind != "raise" and not [s for s in it2.root.stages if s[0] == "crop"] and pair.attrs.get("_prediction_arr") is pa, None, nontrivial=False)
 
 
+class _UnionMask:
+    """Voxelwise `or` of masks."""
+
+    def __init__(self, parts, op="or"):
+        self.parts = list(parts)
+        self.filled = False
+        self.op = op
+
+
+def check_crop_mask(ctx: Ctx):
+    """R10.3: the shared crop is the bounding box of (prediction != 0) OR (reference != 0) -
+    a mask that misses foreground of either array cuts instances off.  _get_paired_crop is run
+    on abstract arrays; the mask handed to the bounding-box helper must be exactly that union
+    (or everything, when both are empty)."""
+    from .arrdom import AArr, AMask, ArrInterp
+
+    prog = ctx.prog
+    f = prog.func("_functionals:_get_paired_crop")
+    holder = []
+
+    class CropMaskInterp(ArrInterp):
+        def get_attr(self, base, attr, node):
+            if isinstance(base, AArr) and attr == "shape":
+                return Sym("SHAPE")
+            if isinstance(base, _UnionMask):
+                return _UM(base, attr)
+            return super().get_attr(base, attr, node)
+
+        def apply(self, fv, args, kwargs, node):
+            if isinstance(fv, _UM):
+                if fv.name == "any" and not args and not kwargs:
+                    d = self.decide(node, self.root.__dict__.setdefault("_union_empty", Unknown("both-empty")))
+                    return not d
+                if fv.name == "copy":
+                    return fv.o
+                return Unknown(f"union.{fv.name}")
+            return super().apply(fv, args, kwargs, node)
+
+        def arr_method(self, a, name, args, kwargs, node):
+            # a single mask used as the crop mask: same protocol as a union of one part
+            if isinstance(a, AMask) and name == "any" and not args and not kwargs:
+                u = self.root.__dict__.setdefault("_single", {}).setdefault(id(a), _UnionMask([a]))
+                self.root.__dict__.setdefault("_keep", []).append(a)
+                d = self.decide(node, self.root.__dict__.setdefault("_union_empty", Unknown("both-empty")))
+                return not d
+            return super().arr_method(a, name, args, kwargs, node)
+
+        def _union(self, parts):
+            flat = []
+            for p in parts:
+                if isinstance(p, _UnionMask):
+                    flat += p.parts
+                elif isinstance(p, AMask):
+                    flat.append(p)
+                else:
+                    return None
+            return _UnionMask(flat)
+
+        def external_call(self, name, args, kwargs, node):
+            if name in ("numpy.logical_or", "numpy.logical_and", "numpy.logical_xor") and len(args) == 2 and not kwargs:
+                u = self._union(args)
+                if u is not None:
+                    u.op = name.rsplit("_", 1)[1]
+                    return u
+            if self.prog.is_anchor(name, "utils.numpy_utils:_get_bbox_nd"):
+                self.root.bbox_args.append((args[0] if args else kwargs.get("img"), node))
+                return Sym("BBOX")
+            return super().external_call(name, args, kwargs, node)
+
+        def binop_hook(self, op, l, r, node):
+            if isinstance(op, ast.BitOr):
+                u = self._union([l, r])
+                if u is not None:
+                    return u
+            return super().binop_hook(op, l, r, node)
+
+        def store_subscript_hook(self, base, idx, v, node):
+            if isinstance(base, _UnionMask) and v is True:
+                base.filled = True
+                return
+            if isinstance(base, AMask) and v is True:
+                base.filled = True
+                return
+            return super().store_subscript_hook(base, idx, v, node)
+
+        def truth_hook(self, v, node):
+            if isinstance(v, _UnionMask):
+                raise Undecided("truth value of a mask")
+            return super().truth_hook(v, node)
+
+    def make(prefix):
+        args = {}
+        for p in f.call_params:
+            lp = p.name.lower()
+            if lp.startswith("pred"):
+                args[p.name] = AArr("PRED", False)
+            elif lp.startswith("ref"):
+                args[p.name] = AArr("REF", False)
+        it = CropMaskInterp(prog, f, args, metrics=[], prefix=prefix)
+        it.root.bbox_args = []
+        it.root.no_inline = {prog.func("utils.numpy_utils:_get_bbox_nd").qual}
+        holder.append(it)
+        return it
+
+    outs = enumerate_paths(make)
+    n = 0
+    for out, it in zip(outs, holder):
+        empty = [d for nd, v, d in out.decisions if isinstance(v, Unknown) and v.tag == "both-empty"]
+        other = [v for nd, v, d in out.decisions if not (isinstance(v, Unknown) and v.tag == "both-empty")]
+        construct = f"{f.qual}" + (":both-empty" if any(empty) else "")
+        if other or out.kind == "raise":
+            ctx.undecided("R10.3", f, out.node, construct, f"crop computation not modelled on this path: {out.kind} {out.exc or ''}")
+            continue
+        n += 1
+        ba = it.root.bbox_args
+        ok = None
+        detail = {}
+        if len(ba) == 1 and isinstance(ba[0][0], _UnionMask):
+            u = ba[0][0]
+            sides = sorted((m.of.side, m.kind, bool(getattr(m.of, "casts", None))) for m in u.parts)
+            detail = {"mask": [f"{s} {k}" for s, k, _ in sides], "filled": u.filled}
+            detail["op"] = u.op
+            ok = u.op == "or" and sides == [("PRED", "nonzero", False), ("REF", "nonzero", False)] and (u.filled if any(empty) else not u.filled)
+        elif len(ba) == 1:
+            m = ba[0][0]
+            detail = {"mask": f"{m.of.side} {m.kind}" if isinstance(m, AMask) else repr(m)[:80]}
+            ok = False if isinstance(m, AMask) else None
+        ctx.decide("R10.3", f, ba[0][1] if ba else out.node, construct + ":mask", "the crop is the bounding box of (prediction != 0) or (reference != 0)" + (", of everything when both are empty" if any(empty) else ""), ok, detail)
+    if n < 2:
+        ctx.undecided("R10.3.floor", f, f.node, "floor:R10.3", f"{n} paths of the paired crop evaluated, confirmed floor is 2")
+
+
+class _UM:
+    def __init__(self, o, name):
+        self.o = o
+        self.name = name
+
+
 def check(ctx: Ctx):
-    for fn, rule in ((check_crop_data, "R10.1"), (check_bbox, "R10.2")):
+    for fn, rule in ((check_crop_data, "R10.1"), (check_bbox, "R10.2"), (check_crop_mask, "R10.3")):
         try:
             fn(ctx)
         except (Undecided, AnchorMissing) as e:
@@ -284,7 +422,13 @@ _N = "panoptica/utils/numpy_utils.py"
 _P = "panoptica/utils/processing_pair.py"
 _F = "panoptica/_functionals.py"
 
+_FN = "panoptica/_functionals.py"
 VARIANTS = [
+    Variant("C10-m-crop-mask-pred-background", "R10.3", "mutant", [(_FN, "combined = np.logical_or(prediction_arr != 0, reference_arr != 0)", "combined = np.logical_or(prediction_arr == 0, reference_arr != 0)")], control=True),
+    Variant("C10-m-crop-mask-ref-only", "R10.3", "mutant", [(_FN, "combined = np.logical_or(prediction_arr != 0, reference_arr != 0)", "combined = reference_arr != 0")]),
+    Variant("C10-m-crop-mask-label-one", "R10.3", "mutant", [(_FN, "combined = np.logical_or(prediction_arr != 0, reference_arr != 0)", "combined = np.logical_or(prediction_arr != 1, reference_arr != 0)")]),
+    Variant("C10-m-crop-mask-and", "R10.3", "mutant", [(_FN, "combined = np.logical_or(prediction_arr != 0, reference_arr != 0)", "combined = np.logical_and(prediction_arr != 0, reference_arr != 0)")]),
+    Variant("C10-t-crop-mask-bitor", "R10.3", "twin", [(_FN, "combined = np.logical_or(prediction_arr != 0, reference_arr != 0)", "combined = (reference_arr > 0) | (prediction_arr > 0)")]),
     Variant("C10-m-no-clip", "R10.2", "mutant", [(_N, "            max(out[i] - px_dist[i // 2], 0),", "            out[i] - px_dist[i // 2],")], control=True),
     Variant("C10-m-stop-short", "R10.2", "mutant", [(_N, "            min(out[i + 1] + px_dist[i // 2], shp[i // 2]) + 1,", "            min(out[i + 1] + px_dist[i // 2], shp[i // 2]),")], control=True),
     Variant("C10-m-stop-clamp-off-by-one", "R10.2", "mutant", [(_N, "            min(out[i + 1] + px_dist[i // 2], shp[i // 2]) + 1,", "            min(out[i + 1] + px_dist[i // 2], shp[i // 2] - 2) + 1,")]),
